@@ -4,6 +4,7 @@ Each function takes the report and the rule id under which to file its obligatio
 analysis can back clauses of several properties.
 """
 import ast
+import copy
 import textwrap
 
 from ..core import AnalysisError, norm, short
@@ -206,6 +207,7 @@ def check_make_chain(rep, rule, rule_align):
     # list-valued locals as concatenation normal forms: items ('*', param) = all elements of a parameter list in order,
     # ('e', node) = one element, ('?', text) = unknown
     seqenv = {}
+    killed = {}      # a list parameter re-bound to something that is not an order-preserving copy of itself -> the statement
 
     def seq(e):
         if isinstance(e, ast.BinOp) and isinstance(e.op, ast.Add):
@@ -217,10 +219,18 @@ def check_make_chain(rep, rule, rule_align):
             return out
         if isinstance(e, ast.Call) and call_name(e) in ('list', 'tuple') and len(e.args) == 1 and not e.keywords:
             return seq(e.args[0])
+        if isinstance(e, (ast.ListComp, ast.GeneratorExp)) and len(e.generators) == 1 and not e.generators[0].ifs and \
+                isinstance(e.generators[0].target, ast.Name) and not e.generators[0].is_async:
+            # [p for p in X] / [tuple(p) for p in X]: every element of X, in order, itself copied in order
+            v, x = e.generators[0].target.id, e.elt
+            while isinstance(x, ast.Call) and call_name(x) in ('list', 'tuple') and len(x.args) == 1 and not x.keywords:
+                x = x.args[0]
+            if isinstance(x, ast.Name) and x.id == v:
+                return seq(e.generators[0].iter)
         if isinstance(e, ast.Name):
             if e.id in seqenv:
                 return list(seqenv[e.id])
-            if e.id in (ps[0], ps[1]):
+            if e.id in (ps[0], ps[1]) and e.id not in killed:
                 return [('*', e.id)]
         return [('?', norm(e))]
 
@@ -248,6 +258,8 @@ def check_make_chain(rep, rule, rule_align):
             sq = seq(st.value)
             if any(k == '?' for k, _ in sq):
                 seqenv.pop(st.targets[0].id, None)
+                if st.targets[0].id in (ps[0], ps[1]):
+                    killed[st.targets[0].id] = st
             else:
                 seqenv[st.targets[0].id] = sq
         elif isinstance(st, ast.Expr) and isinstance(st.value, ast.Call) and isinstance(st.value.func, ast.Attribute) and \
@@ -290,6 +302,14 @@ def check_make_chain(rep, rule, rule_align):
     def is_empty_tuple(x):
         return (isinstance(x, ast.Tuple) and not x.elts) or (isinstance(x, ast.Call) and call_name(x) == 'tuple' and not x.args)
     (f1, p1), (f2, p2) = captured['argspec_seqs'], captured['compile_seqs']
+    ok = not killed
+    rep.check(rule_align, fkey(fi, 'lists handed on as declared'), ok,
+              'the function list and every provides tuple reach the code generator as declared (order-preserving copies only): the '
+              'parameter order of a generated level is the order in which its middleware declares provides -- the positional '
+              'interface of next()' if ok else
+              '%s is re-bound to %s, which is not an order-preserving copy: the generated next(...) of a level no longer takes its '
+              'parameters in the order the middleware declares (and hands them over positionally) -- values are cross-wired'
+              % (sorted(killed)[0], short(killed[sorted(killed)[0]].value, 70)), sinter, killed[sorted(killed)[0]] if killed else fi.node)
     ok = is_funcs(f1) and is_funcs(f2)
     rep.check(rule_align, fkey(fi, 'function sequence'), ok,
               'chain_argspec and compile_chain both get funcs ++ [final_func]' if ok else
@@ -342,16 +362,52 @@ PHASES = {'request': 'provides', 'endpoint': 'endpoint_provides', 'render': 'ren
 PROVS_PHASE = dict((v, k) for k, v in PHASES.items())
 
 
-def _phase_comp(e):
-    """``[(mw.F, mw.P) for mw in X if ...]`` / ``[mw.A for mw in X if ...]`` -> description of the comprehension, else None."""
+def _attr_read(x, var, resolve=None):
+    """The attribute of the loop variable ``var`` that expression ``x`` reads -- ``var.a``, ``getattr(var, 'a')`` /
+    ``getattr(var, K)`` with K a local / constant holding the string where the expression stands, ``G(var)`` with G a local
+    bound there to ``operator.attrgetter('a')`` -- or None.  ``resolve(name)`` gives the expression a name stands for at
+    that point (flow-sensitive: the interpreter's current binding)."""
+    if isinstance(x, ast.Attribute) and isinstance(x.value, ast.Name) and x.value.id == var:
+        return x.attr
+    if not (isinstance(x, ast.Call) and not x.keywords):
+        return None
+
+    def const_str(k, depth=0):
+        if isinstance(k, ast.Constant) and isinstance(k.value, str):
+            return k.value
+        if isinstance(k, ast.Name) and resolve is not None and depth < 3:
+            v = resolve(k.id)
+            return const_str(v, depth + 1) if v is not None else None
+        return None
+    if isinstance(x.func, ast.Name) and x.func.id == 'getattr' and len(x.args) == 2 and isinstance(x.args[0], ast.Name) and x.args[0].id == var:
+        return const_str(x.args[1])
+    if isinstance(x.func, ast.Name) and resolve is not None and len(x.args) == 1 and isinstance(x.args[0], ast.Name) and x.args[0].id == var:
+        g = resolve(x.func.id)
+        if isinstance(g, ast.Call) and norm(g.func) in ('attrgetter', 'operator.attrgetter') and len(g.args) == 1 and not g.keywords:
+            a = const_str(g.args[0])
+            if a is not None and a.isidentifier():
+                return a
+    return None
+
+
+def _phase_comp(e, resolve=None):
+    """``[(mw.F, mw.P) for mw in X if ...]`` / ``[mw.A for mw in X if ...]`` -> description of the comprehension, else None.
+    The attribute reads may be spelled in any of the ways _attr_read follows; ``ifs_text`` holds the filters with such reads
+    written as ``mw.a``."""
     if not isinstance(e, (ast.ListComp, ast.GeneratorExp)) or len(e.generators) != 1 or not isinstance(e.generators[0].target, ast.Name):
         return None
     g = e.generators[0]
     var = g.target.id
 
     def attr_of(x):
-        return x.attr if isinstance(x, ast.Attribute) and isinstance(x.value, ast.Name) and x.value.id == var else None
-    d = {'var': var, 'iter': g.iter, 'ifs': list(g.ifs), 'node': e}
+        return _attr_read(x, var, resolve)
+
+    def canon_text(c):
+        c2, pol = _strip_not(c)
+        a = attr_of(c2)
+        t = '%s.%s' % (var, a) if a is not None else norm(c2)
+        return t if pol else 'not %s' % t
+    d = {'var': var, 'iter': g.iter, 'ifs': list(g.ifs), 'node': e, 'ifs_text': [canon_text(c) for c in g.ifs]}
     if isinstance(e.elt, ast.Tuple) and len(e.elt.elts) == 2 and attr_of(e.elt.elts[0]) and attr_of(e.elt.elts[1]):
         d.update(kind='sigs', func=attr_of(e.elt.elts[0]), prov=attr_of(e.elt.elts[1]))
         return d
@@ -375,7 +431,10 @@ def check_phase_sets(rep, rule, rule_pair=None, rule_order=None, rule_core_env=N
     """Abstract interpretation of make_middleware_chain.  The three (function list, provides list) pairs are found
     by evaluation: a comprehension over the middleware list that selects ``(mw.<slot>, mw.<slot provides>)`` pairs (or
     one of the two) is a phase value; ``zip(*sigs)``, ``list(..)``, ``.. or ((), ())``, tuple unpacking, aliases and
-    an ``if not sigs: <empty lists> else: <unzip>`` split carry it to the make_chain call that consumes it."""
+    an ``if not sigs: <empty lists> else: <unzip>`` split carry it to the make_chain call that consumes it.  A phase is
+    identified by the role of what the make_chain call is given (which slot its function list was read from), never by the
+    names of the locals: temporaries re-used from phase to phase are followed flow-sensitively, and so are the locals a
+    comprehension reads its attribute names from (``getattr(mw, provides_attr)``, ``attrgetter(..)``)."""
     repo = rep.repo
     core = repo.mod(CORE)
     fi = core.func('make_middleware_chain')
@@ -408,9 +467,29 @@ def check_phase_sets(rep, rule, rule_pair=None, rule_order=None, rule_core_env=N
         if kind == 'sigs':
             comp_of_phase.setdefault(('provs', PROVS_PHASE.get(d['prov'])), d)
 
+    def resolver(it):
+        """name -> the expression the local stands for where the interpreter is now (a value it carries unevaluated)."""
+        def resolve(name):
+            raw = it.env.raw(name)
+            return raw.expr if isinstance(raw, Opaque) and raw.tag is None and isinstance(raw.expr, ast.expr) else None
+        return resolve
+
     def model(it, e):
         if isinstance(e, (ast.SetComp, ast.ListComp, ast.GeneratorExp)):
-            return flatten_comp(it, e)
+            r = flatten_comp(it, e)
+            if r is None and not isinstance(e, ast.SetComp):
+                # a phase list, described where it is built (the names it reads are bound flow-sensitively)
+                d = _phase_comp(e, resolver(it))
+                if d is not None:
+                    d = comps.setdefault(id(e), d)
+                    return Opaque(e, (d['kind'], d['func'] if d['func'] is not None else PROVS_PHASE.get(d['prov']), id(e)))
+            return r
+        if isinstance(e, ast.Subscript) and isinstance(e.value, ast.Name) and isinstance(e.slice, ast.Constant) and \
+                type(e.slice.value) is int:
+            raw = it.env.raw(e.value.id)      # a pair (function list, provides list) built by a loop: see for_model
+            if isinstance(raw, tuple) and 0 <= e.slice.value < len(raw):
+                return it.env.get(e.value.id)[e.slice.value]
+            return None
         if isinstance(e, ast.Call):
             cn = call_name(e)
             if cn == 'zip' and len(e.args) == 1 and isinstance(e.args[0], ast.Starred) and not e.keywords:
@@ -454,7 +533,7 @@ def check_phase_sets(rep, rule, rule_pair=None, rule_order=None, rule_core_env=N
                     return r
             if cn in ('set', 'frozenset') and e.args:
                 for n in ast.walk(e.args[0]):
-                    if isinstance(n, ast.Name):
+                    if isinstance(n, ast.Name) or (isinstance(n, ast.Subscript) and isinstance(n.value, ast.Name)):
                         pv = phase_val(it.try_eval(n))
                         if pv is not None and pv[0] == 'provs' and pv[1] in provs_atom:
                             note(pv[2], 'provs', pv[1])
@@ -477,6 +556,38 @@ def check_phase_sets(rep, rule, rule_pair=None, rule_order=None, rule_core_env=N
             return flatten_comp(it, e)
         return None
 
+    def _is_empty_list(v):
+        return (isinstance(v, ast.List) and not v.elts) or (isinstance(v, ast.Call) and call_name(v) == 'list' and not v.args and not v.keywords)
+
+    def _bound_part(target, value, name):
+        """The part of ``value`` that the assignment ``target = value`` binds to the local ``name`` (displays are taken apart
+        position by position)."""
+        if isinstance(target, ast.Name):
+            return value if target.id == name else None
+        if isinstance(target, (ast.Tuple, ast.List)) and isinstance(value, (ast.Tuple, ast.List)) and len(target.elts) == len(value.elts) and \
+                not any(isinstance(x, ast.Starred) for x in list(target.elts) + list(value.elts)):
+            for t_, v_ in zip(target.elts, value.elts):
+                r = _bound_part(t_, v_, name)
+                if r is not None:
+                    return r
+        return None
+
+    def reaching_value(name, before):
+        """The expression the local ``name`` holds when the top-level statement ``before`` of the function starts: bound by the
+        closest preceding top-level statement that mentions the name at all (so nothing re-binds, mutates or aliases it in
+        between)."""
+        body = fi.node.body
+        idx = [i for i, s_ in enumerate(body) if s_ is before]
+        if not idx:
+            return None
+        for s_ in reversed(body[:idx[0]]):
+            if not any(isinstance(n, ast.Name) and n.id == name for n in ast.walk(s_)):
+                continue
+            if isinstance(s_, ast.Assign) and len(s_.targets) == 1:
+                return _bound_part(s_.targets[0], s_.value, name)
+            return None
+        return None
+
     def empty_list_local(name):
         """``name`` is bound exactly once in the function, to an empty list (possibly in ``a, b = [], []``)."""
         b = assigned_value(fi.node, name)
@@ -487,11 +598,29 @@ def check_phase_sets(rep, rule, rule_pair=None, rule_order=None, rule_core_env=N
             v = v.elts[idx]
         elif idx is not None:
             return False
-        return (isinstance(v, ast.List) and not v.elts) or (isinstance(v, ast.Call) and call_name(v) == 'list' and not v.args)
+        return _is_empty_list(v)
+
+    def empty_list_at(target, loop):
+        """The list the loop appends to -- a local, or one side ``pair[k]`` of a local tuple of lists -- is a fresh empty list when
+        the loop starts.  -> (base name, index or None, arity of the tuple or None), or None."""
+        if isinstance(target, ast.Name):
+            v = reaching_value(target.id, loop)
+            if (v is not None and _is_empty_list(v)) or (v is None and empty_list_local(target.id)):
+                return target.id, None, None
+            return None
+        if isinstance(target, ast.Subscript) and isinstance(target.value, ast.Name) and isinstance(target.slice, ast.Constant) and \
+                type(target.slice.value) is int:
+            v = reaching_value(target.value.id, loop)
+            k = target.slice.value
+            if isinstance(v, ast.Tuple) and 0 <= k < len(v.elts) and all(_is_empty_list(x) for x in v.elts):
+                return target.value.id, k, len(v.elts)
+        return None
 
     def for_model(it, st):
         """Loop forms: (1) ``for mw in middlewares: if mw.request: funcs.append(mw.request); provs.append(mw.provides)``
-        builds phase lists; (2) ``for p in req_provides: names.update(p)`` flattens a provides list."""
+        builds phase lists -- the slot may be read into a loop-local first (``func = mw.request``), a middleware without the
+        slot may be skipped by ``if not func: continue``, the lists may be the two sides of a local pair (``sig[0].append``);
+        (2) ``for p in req_provides: names.update(p)`` flattens a provides list."""
         if not isinstance(st.target, ast.Name) or st.orelse:
             return False
         var = st.target.id
@@ -517,35 +646,66 @@ def check_phase_sets(rep, rule, rule_pair=None, rule_order=None, rule_core_env=N
                                            len(st.iter.args) == 1 and norm(st.iter.args[0]) == ps[0]):
             return False
         found = []
+        alias = {}        # loop-local name -> the attribute read of the middleware it stands for in this iteration
+        res = resolver(it)
+        stores_in_loop = [n.id for b_ in st.body for n in ast.walk(b_) if isinstance(n, ast.Name) and isinstance(n.ctx, (ast.Store, ast.Del))]
 
-        def walk(body, cs):
-            for b in body:
+        class _Sub(ast.NodeTransformer):
+            def visit_Name(self, node):
+                if isinstance(node.ctx, ast.Load) and node.id in alias:
+                    return ast.copy_location(copy.deepcopy(alias[node.id]), node)
+                return node
+
+        def subst(x):
+            return _Sub().visit(copy.deepcopy(x)) if alias else x
+
+        def walk(body, cs, top):
+            body = list(body)
+            for i, b in enumerate(body):
                 if isinstance(b, ast.If):
-                    t, pol = _strip_not(b.test)
-                    walk(b.body, cs + [(t, pol)])
-                    walk(b.orelse, cs + [(t, not pol)])
+                    t, pol = _strip_not(subst(b.test))
+                    if len(b.body) == 1 and isinstance(b.body[0], ast.Continue) and not b.orelse:
+                        # ``if <no such slot>: continue``: what follows in this block runs for the others
+                        walk(body[i + 1:], cs + [(t, not pol)], False)
+                        return
+                    walk(b.body, cs + [(t, pol)], False)
+                    walk(b.orelse, cs + [(t, not pol)], False)
                 elif isinstance(b, ast.Expr) and isinstance(b.value, ast.Call) and isinstance(b.value.func, ast.Attribute) and \
-                        b.value.func.attr == 'append' and isinstance(b.value.func.value, ast.Name) and len(b.value.args) == 1:
-                    found.append((b.value.func.value.id, b.value.args[0], cs, b))
+                        b.value.func.attr == 'append' and isinstance(b.value.func.value, (ast.Name, ast.Subscript)) and len(b.value.args) == 1 \
+                        and not b.value.keywords:
+                    found.append((norm(b.value.func.value), b.value.func.value, subst(b.value.args[0]), cs, b))
+                elif isinstance(b, ast.Assign) and top and not cs and len(b.targets) == 1 and isinstance(b.targets[0], ast.Name) and \
+                        b.targets[0].id != var and b.targets[0].id not in alias and stores_in_loop.count(b.targets[0].id) == 1 and \
+                        _attr_read(b.value, var, res) is not None:
+                    alias[b.targets[0].id] = b.value
                 elif isinstance(b, ast.Pass):
                     continue
                 else:
                     raise Unmodelled('statement %s in the loop over the middlewares' % norm(b)[:60])
-        walk(st.body, [])
+        walk(st.body, [], True)
         if not found:
             return False
-        for lname, val, cs, b in found:
+        pairs = {}
+        for lname, target, val, cs, b in found:
             fake = ast.copy_location(ast.ListComp(elt=val, generators=[ast.comprehension(
                 target=ast.Name(id=var, ctx=ast.Store()), iter=st.iter, ifs=[t if pol else ast.UnaryOp(op=ast.Not(), operand=t) for t, pol in cs],
                 is_async=0)]), b)
-            d = _phase_comp(fake)
-            if d is None or not empty_list_local(lname) or sum(1 for f in found if f[0] == lname) != 1:
+            d = _phase_comp(fake, res)
+            where = empty_list_at(target, st) if d is not None else None
+            if d is None or where is None or sum(1 for f in found if f[0] == lname) != 1:
                 raise Unmodelled('list %s built in the loop over the middlewares is not a phase list' % lname)
             d['node'] = st
             d['fake'] = fake
             comps[id(fake)] = d
             phase = d['func'] if d['func'] is not None else PROVS_PHASE.get(d['prov'])
-            it.env[lname] = Opaque(fake, (d['kind'], phase, id(fake)))
+            val_ = Opaque(fake, (d['kind'], phase, id(fake)))
+            base, k, arity = where
+            if k is None:
+                it.env[base] = val_
+            else:
+                pairs.setdefault(base, [Opaque(None, 'list not filled by the loop')] * arity)[k] = val_
+        for base, vals in pairs.items():
+            it.env[base] = tuple(vals)
         return True
 
     def if_model(it, st):
@@ -608,13 +768,14 @@ def check_phase_sets(rep, rule, rule_pair=None, rule_order=None, rule_core_env=N
                 itx = d['iter']
                 while isinstance(itx, ast.Call) and call_name(itx) in ('list', 'tuple', 'iter') and len(itx.args) == 1:
                     itx = itx.args[0]
-                flt = [norm(c) for c in d['ifs']]
+                flt = d.get('ifs_text') or [norm(c) for c in d['ifs']]
                 return norm(itx) == ps[0] and flt == ['%s.%s' % (d['var'], ph)] and not d.get('reordered')
             ok = in_order(fd) and pd is not None and in_order(pd)
             rep.check(rule_order, fkey(fi, 'order of mw.%s' % ph), ok,
                       'the %s functions are taken from the middleware list in list order, filtered by presence only' % ph if ok else
                       'the %s function list is not the middleware list in order filtered by presence (iter %s, filters %s%s)'
-                      % (ph, norm(fd['iter']), [norm(c) for c in fd['ifs']], ', then %s()' % fd['reordered'] if fd.get('reordered') else ''),
+                      % (ph, norm(fd['iter']), (fd if not in_order(fd) or pd is None else pd).get('ifs_text') or [norm(c) for c in fd['ifs']],
+                         ', then %s()' % fd['reordered'] if fd.get('reordered') else ''),
                       core, fd['node'])
     # ---- availability sets by abstract interpretation
     base = uni['PRE'] & uni.neg(uni['NEXT']) & uni.neg(uni['CTX'])
@@ -978,8 +1139,16 @@ def check_unresolved_raises(rep, rule):
 
             def about_u(tt, pol, _):
                 return any(_implies_empty(tt, pol, f) for f in forms)
-            tb = [nid for nid, tt, p in branches if about_u(tt, not p, True)]      # the set is non-empty on this branch
-            eb = [nid for nid, tt, p in branches if about_u(tt, p, True)]          # the set is empty on this branch
+            # (the name may be re-used for the next phase: only tests that see *this* binding count)
+            def binds_u(s2):
+                tg = s2.targets if isinstance(s2, ast.Assign) else ([s2.target] if isinstance(s2, (ast.AugAssign, ast.AnnAssign, ast.For)) else [])
+                if isinstance(s2, ast.Assign) and len(tg) == 1 and isinstance(tg[0], ast.Name) and tg[0].id == u and norm(s2.value) in forms:
+                    return False        # u = sorted(u): the same names under the same local
+                return any(isinstance(n_, ast.Name) and n_.id == u for t_ in tg for n_ in ast.walk(t_))
+            rebinds = [s2 for s2 in stmts_of(fi.node) if s2 is not st and binds_u(s2)]
+            live = cfg.reach(cfg.nodes_of(st), avoid=cfg.nodes_of_all(rebinds))
+            tb = [nid for nid, tt, p in branches if nid in live and about_u(tt, not p, True)]      # the set is non-empty on this branch
+            eb = [nid for nid, tt, p in branches if nid in live and about_u(tt, p, True)]          # the set is empty on this branch
             ok = False
             why = 'the unresolved set %s is never tested' % u
             if tb:
@@ -998,6 +1167,30 @@ def check_unresolved_raises(rep, rule):
                       'non-empty %s => raise NameError on every path to the return' % u if ok else why, core, st)
     if n < 3:
         raise AnalysisError('make_middleware_chain: %d make_chain calls (floor 3)' % n)
+    # the set that is tested is computed on every path: a phase that is given its chain some other way than through make_chain
+    # (a fast path for "no middleware in this phase") and binds the *constant* empty set reports nothing, whatever the final
+    # function requires
+    tested = set()
+    for st in stmts_of(fi.node):
+        if isinstance(st, ast.Assign) and isinstance(st.value, ast.Call) and call_name(st.value) == 'make_chain' and \
+                isinstance(st.targets[0], ast.Tuple) and len(st.targets[0].elts) == 3 and isinstance(st.targets[0].elts[2], ast.Name):
+            tested.add(st.targets[0].elts[2].id)
+    for u in sorted(tested):
+        for st_, v, idx in assigned_value(fi.node, u):
+            if isinstance(idx, int) and isinstance(v, (ast.Tuple, ast.List)) and idx < len(v.elts):
+                v = v.elts[idx]
+            elif idx is not None:
+                continue
+            if not isinstance(v, ast.expr):
+                continue
+            const_empty = (isinstance(v, (ast.Tuple, ast.List, ast.Set, ast.Dict)) and not getattr(v, 'elts', getattr(v, 'keys', None))) or \
+                (isinstance(v, ast.Call) and call_name(v) in ('set', 'frozenset', 'tuple', 'list') and not v.args and not v.keywords) or \
+                (isinstance(v, ast.Constant) and not v.value)
+            if const_empty:
+                rep.fail(rule, fkey(fi, 'unresolved set %s is computed' % u),
+                         'on a path that does not go through make_chain the unresolved set %s is the constant %s: whatever the final function '
+                         'of that phase requires -- e.g. "context" outside the render phase, which the request phase never sees -- is not '
+                         'reported at construction' % (u, short(v, 30)), core, st_)
     # 'next' must not be taken by endpoint / render
     ps = fi.params()
     for who in (ps[1], ps[2]):
@@ -1472,6 +1665,7 @@ def check_accessors(rep, rule, kinds=True):
         ok = any(isinstance(n, ast.Call) and call_tail(n) == 'get_defaults_dict' for n in walk_body(fi.node))
         rep.check(rule, fkey(fi, 'defaults accessor'), ok, 'defaults come from get_defaults_dict() (positional and keyword-only defaults)' if ok else
                   '%s does not use get_defaults_dict()' % q, mod, fi.node)
+    check_fb_stateless(rep, rule, sinter.func('get_fb'))
     if not kinds:
         return
     # parameter kinds
@@ -1494,10 +1688,234 @@ def check_accessors(rep, rule, kinds=True):
               'positional-only parameters are neither rejected nor passed positionally: getfullargspec folds them into .args, the '
               'generated code passes every argument by keyword => "def ep(a, /)" binds fine and fails every request with TypeError',
               sinter, gf.node)
+    check_self_drop(rep, rule, gf)
     # anonymous / non-string args are rejected
     ok = any(raise_type(r) == 'TypeError' for r in raises_of(gf))
     rep.check(rule, fkey(gf, 'strange args rejected'), ok, 'non-string argument names raise TypeError' if ok else
               'get_fb no longer rejects non-string argument names', sinter, gf.node)
+
+
+def check_fb_stateless(rep, rule, gf):
+    """What get_fb reports for a callable is computed from *that* callable, every time: (i) inspecting a callable leaves
+    nothing behind on it -- no attribute store, ``setattr``, ``__dict__`` entry: the one attribute get_fb trusts as a signature
+    supplied by the user (``_sinter_fb``) travels with the function's ``__dict__`` (``functools.wraps`` copies it onto a
+    wrapper whose own signature differs); (ii) a module-level memo, if there is one, is keyed by the callable object itself
+    (and plain parameters), never by something read *off* it (``f.__code__``, ``f.__name__``, ``id(f)``): a bound method and
+    its function, a wrapper and the wrapped, share such a projection but not their signature."""
+    sinter = gf.mod
+    ps = gf.params()
+    F = ps[0]
+
+    def about_f(e, depth=0):
+        """The expression reads something off the inspected callable (a projection), directly or through locals."""
+        if depth > 3:
+            return False
+        for n in ast.walk(e):
+            if isinstance(n, ast.Name) and n.id == F:
+                return True
+            if isinstance(n, ast.Name) and n.id not in ps:
+                for st_, v, idx in assigned_value(gf.node, n.id):
+                    if isinstance(v, ast.expr) and v is not e and about_f(v, depth + 1):
+                        return True
+        return False
+
+    def is_f(e, depth=0):
+        """The callable itself (under a local name)."""
+        if isinstance(e, ast.Name) and e.id == F:
+            return True
+        if isinstance(e, ast.Name) and e.id not in ps and depth < 3:
+            v = _single_value(gf, e.id)
+            return v is not None and is_f(v, depth + 1)
+        return False
+    stores = []
+    for e in effects.effects_in(gf.node):
+        if e.kind in ('store', 'delete', 'mutcall') and e.chain and e.root is not None and is_f(ast.Name(id=e.root, ctx=ast.Load())):
+            stores.append(e)
+        elif e.kind in ('store', 'delete', 'mutcall') and e.chain and e.chain[0] == 'vars' and isinstance(e.target, (ast.Subscript, ast.Call)):
+            stores.append(e)
+    ok = not stores
+    rep.check(rule, fkey(gf, 'leaves nothing on the callable'), ok,
+              'inspecting a callable stores nothing on it (a signature found on a function is one its author put there)' if ok else
+              'get_fb stores on the callable it inspects (%s): the function\'s __dict__ travels to every functools.wraps wrapper made '
+              'afterwards, and get_fb then trusts the copied attribute -- the wrapper is described by the signature of the function it '
+              'wraps, not by its own' % short(stores[0].node, 70), sinter, stores[0].node if stores else gf.node)
+    # module-level memo tables read or written here
+    tables = set(n for n, vals in sinter.assigns.items()
+                 if any(isinstance(v, ast.Dict) or (isinstance(v, ast.Call) and call_name(v) in ('dict', 'OrderedDict', 'defaultdict', 'WeakKeyDictionary',
+                                                                                               'weakref.WeakKeyDictionary')) for v in vals if isinstance(v, ast.expr)))
+    tables -= set(ps) | set(n.id for n in walk_body(gf.node) if isinstance(n, ast.Name) and isinstance(n.ctx, ast.Store))
+    keys = []
+    for n in walk_body(gf.node):
+        if isinstance(n, ast.Subscript) and isinstance(n.value, ast.Name) and n.value.id in tables:
+            keys.append((n.slice, n))
+        elif isinstance(n, ast.Call) and isinstance(n.func, ast.Attribute) and isinstance(n.func.value, ast.Name) and n.func.value.id in tables and \
+                n.func.attr in ('get', 'setdefault', 'pop', '__getitem__', '__setitem__', '__contains__') and n.args:
+            keys.append((n.args[0], n))
+        elif isinstance(n, ast.Compare) and len(n.ops) == 1 and isinstance(n.ops[0], (ast.In, ast.NotIn)) and \
+                isinstance(n.comparators[0], ast.Name) and n.comparators[0].id in tables:
+            keys.append((n.left, n))
+    bad = []
+    for k, node in keys:
+        kk = _deref(gf, k)
+        parts = list(kk.elts) if isinstance(kk, ast.Tuple) else [kk]
+        for part in parts:
+            part = _deref(gf, part)
+            if isinstance(part, ast.Constant) or (isinstance(part, ast.Name) and part.id in ps) or is_f(part):
+                continue
+            if about_f(part):
+                bad.append((part, node))
+    if keys:
+        ok = not bad
+        rep.check(rule, fkey(gf, 'memo keyed by the callable'), ok,
+                  'remembered signatures are looked up by the callable object itself' if ok else
+                  'get_fb remembers signatures under a key read off the callable (%s in %s), not under the callable: two callables that share '
+                  'it -- a bound method and its function, a wrapper and the function it wraps -- get one signature, whichever was seen first'
+                  % (short(bad[0][0], 50), short(bad[0][1], 60)), sinter, bad[0][1] if bad else keys[0][1])
+
+
+def check_self_drop(rep, rule, gf):
+    """The signature get_fb reports for a bound method lacks the first (``self``) parameter, for every other callable it
+    is complete -- whatever the *state* of the object: the statement that discards the parameter is guarded by a test of
+    what ``f`` *is* (``isinstance(f, types.MethodType)`` / ``inspect.ismethod(f)``, or ``x is not None`` for a local that is
+    ``f.__self__`` exactly on that branch and None otherwise), never by the truth value of the instance the method is
+    bound to (an object may define ``__bool__`` / ``__len__``: an empty container is falsy)."""
+    sinter = gf.mod
+    ps = gf.params()
+    F = ps[0]
+    flag = ps[1] if len(ps) > 1 else None
+
+    def drops_first(st):
+        """``X.args = X.args[1:]`` / ``del X.args[0]`` / ``X.args.pop(0)``"""
+        if isinstance(st, ast.Assign) and len(st.targets) == 1 and isinstance(st.targets[0], ast.Attribute) and st.targets[0].attr == 'args' and \
+                isinstance(st.value, ast.Subscript) and norm(st.value.value) == norm(st.targets[0]) and isinstance(st.value.slice, ast.Slice) and \
+                norm(st.value.slice.lower) == '1' and st.value.slice.upper is None and st.value.slice.step is None:
+            return True
+        if isinstance(st, ast.Delete) and len(st.targets) == 1 and isinstance(st.targets[0], ast.Subscript) and \
+                isinstance(st.targets[0].value, ast.Attribute) and st.targets[0].value.attr == 'args' and norm(st.targets[0].slice) == '0':
+            return True
+        return isinstance(st, ast.Expr) and isinstance(st.value, ast.Call) and isinstance(st.value.func, ast.Attribute) and \
+            st.value.func.attr == 'pop' and isinstance(st.value.func.value, ast.Attribute) and st.value.func.value.attr == 'args' and \
+            len(st.value.args) == 1 and norm(st.value.args[0]) == '0'
+    drops = [st for st in stmts_of(gf.node) if drops_first(st)]
+    if not drops:
+        rep.fail(rule, fkey(gf, 'self dropped for bound methods'), 'get_fb no longer discards the first parameter of a bound method: "self" is '
+                 'counted as a requirement nobody can supply', sinter, gf.node)
+        return
+
+    def method_test(t):
+        """``t`` is true exactly when f is a bound method."""
+        if isinstance(t, ast.Call) and not t.keywords:
+            if call_name(t) == 'isinstance' and len(t.args) == 2 and norm(t.args[0]) == F and norm(t.args[1]) in ('types.MethodType', 'MethodType'):
+                return True
+            if norm(t.func) in ('inspect.ismethod', 'ismethod') and len(t.args) == 1 and norm(t.args[0]) == F:
+                return True
+        return False
+
+    def instance_of(e, depth=0):
+        """``e`` evaluates to the object the method is bound to (or to a placeholder where there is none)."""
+        if depth > 3:
+            return False
+        while (isinstance(e, ast.Call) and call_name(e) in ('bool', 'len') and len(e.args) == 1 and not e.keywords) or \
+                (isinstance(e, ast.UnaryOp) and isinstance(e.op, ast.Not)):
+            e = e.args[0] if isinstance(e, ast.Call) else e.operand
+        if isinstance(e, ast.Attribute) and e.attr in ('__self__', 'im_self') and norm(e.value) == F:
+            return True
+        if isinstance(e, ast.Call) and call_name(e) == 'getattr' and len(e.args) >= 2 and norm(e.args[0]) == F and \
+                isinstance(e.args[1], ast.Constant) and e.args[1].value in ('__self__', 'im_self'):
+            return True
+        if isinstance(e, ast.BoolOp):
+            return any(instance_of(v, depth + 1) for v in e.values)
+        if isinstance(e, ast.Name) and e.id not in ps:
+            for st_, v, idx in assigned_value(gf.node, e.id):
+                if isinstance(idx, int) and isinstance(v, (ast.Tuple, ast.List)) and idx < len(v.elts):
+                    v = v.elts[idx]
+                elif idx is not None:
+                    continue
+                if isinstance(v, ast.expr) and instance_of(v, depth + 1):
+                    return True
+        return False
+
+    def none_exactly_when_not_method(name):
+        """Every binding of the local is ``f.__self__`` under the method test, or None under its negation."""
+        vals = assigned_value(gf.node, name)
+        if not vals:
+            return False
+        for st_, v, idx in vals:
+            if idx is not None or not isinstance(st_, ast.Assign):
+                return False
+            cs = conds(gf, st_)
+            if isinstance(v, ast.Constant) and v.value is None:
+                if not has_cond(cs, method_test, False):
+                    return False
+            elif isinstance(v, ast.Attribute) and v.attr in ('__self__', 'im_self') and norm(v.value) == F:
+                if not has_cond(cs, method_test, True):
+                    return False
+            else:
+                return False
+        return True
+    par = {}
+    for p_ in ast.walk(gf.node):
+        for ch in ast.iter_child_nodes(p_):
+            par[ch] = p_
+    cfg = cfg_of(gf)
+    for st in drops:
+        established, by_state, unknown = False, [], []
+        # the tests of the ``if`` statements around the statement decide whether *this* callable loses its first parameter;
+        # conditions established by earlier guard clauses only matter when they ask about the instance
+        encl, cur = [], st
+        while cur is not gf.node and cur in par:
+            up = par[cur]
+            if isinstance(up, ast.If):
+                encl.append((up.test, any(cur is x for x in up.body)))
+            elif not isinstance(up, (ast.FunctionDef, ast.With, ast.Try)):
+                raise AnalysisError('get_fb: the statement that discards "self" sits in a %s' % type(up).__name__)
+            cur = up
+        rel = expand_conds(encl)
+        nids = cfg.nodes_of(st)
+        if nids:
+            rel = cfg._expand_named(rel, nids[0])
+        seen_txt = set((norm(t), p) for t, p in rel)
+        rel = rel + [(t, p) for t, p in conds(gf, st) if (norm(t), p) not in seen_txt and instance_of(_strip_not(t, p)[0])]
+        for t, p in rel:
+            t, p = _strip_not(t, p)
+            if isinstance(t, ast.BoolOp) and ((isinstance(t.op, ast.And) and p is True) or (isinstance(t.op, ast.Or) and p is False)):
+                continue        # taken apart: its operands are in the list
+            if method_test(t):
+                if p is True:
+                    established = True
+                else:
+                    unknown.append((t, p))
+                continue
+            if flag is not None and isinstance(t, ast.Name) and t.id == flag:
+                continue
+            k = None
+            if isinstance(t, ast.Compare) and len(t.ops) == 1 and isinstance(t.comparators[0], ast.Constant) and t.comparators[0].value is None \
+                    and isinstance(t.ops[0], (ast.Is, ast.IsNot)):
+                k = isinstance(t.ops[0], ast.IsNot) == (p is True)         # True: "is not None" holds
+            if k is not None and isinstance(t.left, ast.Name) and none_exactly_when_not_method(t.left.id):
+                if k:
+                    established = True
+                else:
+                    unknown.append((t, p))
+                continue
+            if k is None and instance_of(t):
+                by_state.append((t, p))
+                continue
+            if isinstance(t, ast.Name) and t.id not in ps and nids and len(cfg._expand_named([(t, p)], nids[0])) > 1:
+                continue        # a local naming a condition: what it stands for is in the list
+            unknown.append((t, p))
+        if unknown and not by_state:
+            raise AnalysisError('get_fb: the guard of the statement that discards "self" is not recognised: %s' % cond_texts(unknown))
+        ok = established and not by_state
+        rep.check(rule, fkey(gf, 'self dropped for bound methods'), ok,
+                  'the first parameter is discarded exactly when f is a bound method (a test of what f is, not of the state of the '
+                  'object it is bound to)' if ok else
+                  ('whether "self" is discarded depends on the truth value of the object the method is bound to (%s): a method of an '
+                   'instance that is falsy at bind time (empty container, __bool__/__len__) keeps its self parameter -- a satisfiable '
+                   'configuration is rejected with "unresolved ... [\'self\']" / "must take argument \'next\' as the first parameter"'
+                   % ', '.join(cond_texts(by_state)) if by_state else
+                   'the first parameter is discarded without establishing that f is a bound method (%s): plain functions lose a real parameter'
+                   % (cond_texts(encl) or 'unconditionally')), sinter, st)
 
 
 def check_middleware_identity(rep, rule):
@@ -1693,8 +2111,12 @@ def _merge_records(repo):
         init_st = [st_ for st_, v, idx in assigned_value(fi.node, M) if not isinstance(st_, ast.AugAssign)]
         ok = len(init_vals) == 1 and init_vals[0] is not None and copy_of(init_vals[0], P_NEW) and not isinstance(init_vals[0], ast.Name) and \
             not (isinstance(init_vals[0], ast.Call) and call_name(init_vals[0]) in ('tuple', 'iter'))      # a fresh *list*
+        aliased = len(init_vals) == 1 and isinstance(init_vals[0], ast.Name) and copy_of(init_vals[0], P_NEW)
         d = ('the merged list starts as a copy of the new (outer) list, in order' if ok else
-             'the merged list does not start as list(%s): the outer list no longer comes first (or is not all there)' % P_NEW)
+             ('the merged list *is* the list the caller passed as %s (no copy): appending the old (route-level) middlewares changes the '
+              'binding application\'s own list, and every route bound afterwards is merged against -- and runs -- the middlewares of the '
+              'routes bound before it' % P_NEW if aliased else
+              'the merged list does not start as list(%s): the outer list no longer comes first (or is not all there)' % P_NEW))
         rec('starts with new', init_st[0] if init_st else fi.node, (ok, d), (ok, d))
         ok = len(loops) == 1 and copy_of(loops[0].iter, P_OLD) and isinstance(loops[0].target, ast.Name)
         d = 'the old (inner) list is walked in order' if ok else 'merge does not iterate the old list in order'
@@ -1991,6 +2413,27 @@ def check_merge_complete(rep, rule):
             rep.check(rule, r['key'] + ' (nothing lost)', r['complete'][0], r['complete'][1], fi.mod, r['node'])
 
 
+def check_merge_fresh(rep, rule):
+    """merge_middlewares builds a list of its own: neither argument -- the binding application's list is shared by every
+    later binding, the route's list by every later re-binding -- is the accumulator or is changed in place."""
+    fi, recs = _merge_records(rep.repo)
+    for r in recs:
+        if r['key'].endswith('::starts with new') and r['complete'] is not None:
+            rep.check(rule, r['key'] + ' (a list of its own)', r['complete'][0], r['complete'][1], fi.mod, r['node'])
+    ps = fi.params()
+    muts = []
+    for e in effects.effects_in(fi.node, aug_names=True):
+        if e.root in ps and e.kind in ('store', 'delete', 'mutcall', 'augname') and not any(
+                isinstance(st_, ast.Assign) and isinstance(v, ast.Call) and call_name(v) in ('list', 'tuple') and
+                cfg_of(fi).must_pass(cfg_of(fi).nodes_of(st_), cfg_of(fi).entry, cfg_of(fi).nodes_of(stmt_of(fi.mod, e.node)))
+                for st_, v, idx in assigned_value(fi.node, e.root) if idx is None):
+            muts.append(e)
+    rep.check(rule, fkey(fi, 'arguments not changed in place'), not muts,
+              'merge_middlewares changes neither of the lists it is given' if not muts else
+              'merge_middlewares changes a list it was handed in place (%s): the caller\'s stack -- shared with later bindings -- grows '
+              'or shrinks with every merge' % short(muts[0].node, 60), fi.mod, muts[0].node if muts else fi.node)
+
+
 def check_merge_keeps_outer(rep, rule):
     """The middleware *instances* of the new (outer, binding application's) list are in the merged list, each at its
     position, none replaced: whoever holds a reference to an application-level middleware holds the object that runs."""
@@ -1998,6 +2441,133 @@ def check_merge_keeps_outer(rep, rule):
     for r in recs:
         if r['key'].endswith(('::starts with new', '::only appends')) and r['complete'] is not None:
             rep.check(rule, r['key'] + ' (outer instances kept)', r['complete'][0], r['complete'][1], fi.mod, r['node'])
+
+
+def check_chain_of_this_binding(rep, rule):
+    """What a bound route executes is the chain compiled from *its own* merged middleware list: every value BoundRoute.__init__
+    stores in ``_execute`` is ``make_middleware_chain(self.middlewares, ..)`` of this activation, on every path, and nothing
+    else writes the attribute.  A chain taken over from another binding (an earlier binding of the same route, a cache keyed
+    by anything that compares middlewares with ``==``, which is by *type*) runs that binding's instances and order, whatever
+    ``self.middlewares`` shows."""
+    repo = rep.repo
+    route = repo.mod(ROUTE)
+    bi = route.func('BoundRoute.__init__')
+    cfg = cfg_of(bi)
+    writes = [s_ for s_ in stmts_of(bi.node) if isinstance(s_, (ast.Assign, ast.AugAssign, ast.AnnAssign)) and
+              any(norm(t) == 'self._execute' for t in (s_.targets if isinstance(s_, ast.Assign) else [s_.target]))]
+    if not writes:
+        raise AnalysisError('BoundRoute.__init__: no assignment to self._execute')
+    merged = {'self.middlewares'}
+    for s_ in stmts_of(bi.node):
+        if isinstance(s_, ast.Assign) and any(norm(t) == 'self.middlewares' for t in s_.targets) and isinstance(s_.value, ast.Name) and \
+                len(assigned_value(bi.node, s_.value.id)) == 1:
+            merged.add(s_.value.id)          # merged = merge_middlewares(..); self.middlewares = merged
+    bad = []
+    for s_ in writes:
+        v = _deref(bi, s_.value) if isinstance(s_, ast.Assign) else None
+        a0 = argn(v, 'middlewares', 0) if isinstance(v, ast.Call) and call_name(v) == 'make_middleware_chain' else None
+        if a0 is None or norm(a0) not in merged:
+            bad.append(s_)
+    ok = not bad and cfg.must_pass(cfg.nodes_of_all(writes), cfg.entry, cfg.exit, normal_only=True)
+    rep.check(rule, fkey(bi, 'executes the chain of its own merged list'), ok,
+              'self._execute is make_middleware_chain(self.middlewares, ..) of this binding, on every path' if ok else
+              ('a bound route can execute a chain that was not compiled from its own merged middleware list (%s): the functions that '
+               'run are those of another binding -- other instances, possibly another order -- while self.middlewares shows the merged '
+               'stack (middlewares compare equal by type, so "the same stack" does not mean the same objects)'
+               % short(bad[0], 80) if bad else 'a BoundRoute can be constructed without compiling its chain'),
+              route, bad[0] if bad else writes[0])
+    writers = []
+    for m in repo.all_internal_modules():
+        for fi_ in m.functions.values():
+            for e in effects.effects_in(fi_.node):
+                if e.chain and '_execute' in e.chain:
+                    writers.append(fi_)
+    ok = bool(writers) and all(w is bi for w in writers)
+    rep.check(rule, 'clastic::writers of _execute (order)', ok, 'only BoundRoute.__init__ stores a chain in _execute' if ok else
+              '_execute is also written by %s' % sorted(set(w.key for w in writers if w is not bi)), route, bi.node)
+
+
+def check_execute_offers_provided(rep, rule):
+    """Everything the bind-time check counted as available reaches the compiled chain at request time: BoundRoute.execute
+    offers the *whole* mapping of bound resources (the one whose keys BoundRoute.__init__ passed as preprovided) and
+    passes its call-time parameters (URL bindings, the dispatcher's built-ins) on unfiltered."""
+    repo = rep.repo
+    route = repo.mod(ROUTE)
+    ex = route.func('BoundRoute.execute')
+    bi = route.func('BoundRoute.__init__')
+    inj = [c for c in walk_body(ex.node) if isinstance(c, ast.Call) and call_name(c) == 'inject']
+    if len(inj) != 1 or len(inj[0].args) < 2:
+        raise AnalysisError('BoundRoute.execute: expected one inject(callable, injectables) call')
+    ls = layers_of_value(ex.node, inj[0].args[1])
+
+    def whole(e, of, fi, depth=0):
+        """``e`` holds every item of the mapping ``of`` (the mapping itself or an unfiltered copy)."""
+        if depth > 3:
+            return False
+        if norm(e) == of:
+            return True
+        if isinstance(e, ast.Call) and call_name(e) == 'dict' and len(e.args) == 1 and not e.keywords:
+            return whole(e.args[0], of, fi, depth + 1)
+        if isinstance(e, ast.Call) and isinstance(e.func, ast.Attribute) and e.func.attr == 'copy' and not e.args and not e.keywords:
+            return whole(e.func.value, of, fi, depth + 1)
+        if isinstance(e, ast.Dict) and len(e.keys) == 1 and e.keys[0] is None:
+            return whole(e.values[0], of, fi, depth + 1)
+        if isinstance(e, ast.Name) and e.id not in fi.params():
+            v = _single_value(fi, e.id)
+            return v is not None and whole(v, of, fi, depth + 1)
+        if isinstance(e, ast.Attribute) and isinstance(e.value, ast.Name) and e.value.id == 'self' and fi is not bi:
+            # another attribute of the route: what BoundRoute.__init__ stored there (its only writer)
+            stores = [s_ for s_ in stmts_of(bi.node) if isinstance(s_, ast.Assign) and any(norm(t) == norm(e) for t in s_.targets)]
+            others = [1 for m in repo.all_internal_modules() for f_ in m.functions.values() if f_ is not bi
+                      for ef in effects.effects_in(f_.node) if ef.chain and e.attr in ef.chain]
+            return len(stores) == 1 and not others and whole(stores[0].value, of, bi, depth + 1)
+        return False
+    ok = any(l.kind == 'source' and whole(l.node, 'self.resources', ex) for l in ls)
+    rep.check(rule, fkey(ex, 'offers every bound resource'), ok,
+              'execute() offers all of self.resources -- the mapping whose keys were counted as available at bind time' if ok else
+              'execute() does not offer the whole of self.resources (layers: %s) although binding counted every resource name as '
+              'available to every function of the chain: an accepted configuration fails per request with a missing argument'
+              % [l.text for l in ls], route, inj[0])
+    kw = ex.node.args.kwarg.arg if ex.node.args.kwarg is not None else None
+    ok = kw is not None and any(l.kind == 'source' and whole(l.node, kw, ex) for l in ls)
+    rep.check(rule, fkey(ex, 'passes call-time parameters on'), ok,
+              'execute() passes its **%s (URL bindings and the dispatcher\'s built-ins) on unfiltered' % kw if ok else
+              'execute() does not pass its call-time parameters on unfiltered (layers: %s)' % [l.text for l in ls], route, inj[0])
+
+
+def check_stack_pinned(rep, rule):
+    """A Route / an Application pins its own middleware stack when it is constructed: ``self.middlewares`` is a new sequence
+    built from what the caller passed (``list(..)`` / ``tuple(..)`` / ``[*..]`` / a slice), never the caller's list object
+    itself -- what the caller does to that list afterwards (before the route is bound) is not part of the route."""
+    repo = rep.repo
+    for modname, q in ((ROUTE, 'Route.__init__'), (APP, 'Application.__init__')):
+        mod = repo.mod(modname)
+        fi = mod.func(q)
+        sm = [s_ for s_ in stmts_of(fi.node) if isinstance(s_, (ast.Assign, ast.AnnAssign)) and
+              any(norm(t) == 'self.middlewares' for t in (s_.targets if isinstance(s_, ast.Assign) else [s_.target]))]
+        if not sm:
+            raise AnalysisError('%s: no assignment to self.middlewares' % q)
+
+        def fresh(e, depth=0):
+            e = _deref(fi, e) if depth < 3 else e
+            if isinstance(e, ast.Call) and call_name(e) in ('list', 'tuple') and len(e.args) <= 1 and not e.keywords:
+                return True
+            if isinstance(e, (ast.List, ast.Tuple)):
+                return True          # a display is a new object whatever it unpacks
+            if isinstance(e, (ast.ListComp,)):
+                return True
+            if isinstance(e, ast.Subscript) and isinstance(e.slice, ast.Slice):
+                return True
+            if isinstance(e, ast.BinOp) and isinstance(e.op, ast.Add):
+                return fresh(e.left, depth + 1) or fresh(e.right, depth + 1)
+            return False
+        bad = [s_ for s_ in sm if s_.value is None or not fresh(s_.value)]
+        ok = not bad
+        rep.check(rule, fkey(fi, 'own copy of the middleware list'), ok,
+                  '%s keeps a copy of the middleware list it is given' % q.split('.')[0] if ok else
+                  '%s stores the caller\'s middleware list object itself (%s): a list that is extended, re-ordered or emptied after the %s '
+                  'was created -- and before it is bound -- changes which middlewares run around its endpoint, and in which order'
+                  % (q, short(bad[0].value, 60), q.split('.')[0].lower()), mod, bad[0] if bad else sm[0])
 
 
 def check_merge_order(rep, rule):
@@ -2033,6 +2603,7 @@ def check_merge_order(rep, rule):
               'old <- the route\'s list, new <- the binding application\'s list: at every embedding level the outer list comes first' if ok else
               'merge_middlewares is called with (old=%s, new=%s): the binding application\'s middlewares must be the new (outer) list' % (o_old, o_new),
               route, c)
+    check_stack_pinned(rep, rule)
     st = stmt_of(route, c)
     sm = [s_ for s_ in stmts_of(bi.node) if isinstance(s_, ast.Assign) and any(norm(t) == 'self.middlewares' for t in s_.targets)]
     ok = len(sm) == 1
@@ -2238,6 +2809,23 @@ def check_inject(rep, r_decl, r_layers):
               'the dict layered as defaults < injectables (%s) is not what the call passes' % v, sinter, fi.node)
 
 
+def _coalesce_literals(ls):
+    """Adjacent literal layers (``d = {'a': x}; d['b'] = y; d.update({'c': z})``) are one literal layer: among themselves a
+    later entry for the same key wins, and nothing else comes between them."""
+    from ..layers import Layer
+    out = []
+    for l in ls:
+        if out and l.kind == 'literal' and out[-1].kind == 'literal' and not l.below and not out[-1].below:
+            prev = out[-1]
+            keys = [k for k in prev.keys if k not in l.keys] + list(l.keys)
+            values = dict(prev.values)
+            values.update(l.values)
+            out[-1] = Layer('literal', '{%s}' % ', '.join(map(str, keys)), prev.node, keys, values)
+        else:
+            out.append(l)
+    return out
+
+
 def check_request_layers(rep, rule, rule_identity=None):
     repo = rep.repo
     route = repo.mod(ROUTE)
@@ -2262,7 +2850,7 @@ def check_request_layers(rep, rule, rule_identity=None):
             raise AnalysisError('%s: expected one inject call' % q)
         if len(inj[0].args) < 2:
             raise AnalysisError('%s: inject call without the injectables argument' % q)
-        ls = layers_of_value(fi.node, inj[0].args[1])
+        ls = _coalesce_literals(layers_of_value(fi.node, inj[0].args[1]))
         i_lit = index_of(ls, lambda l: l.kind == 'literal')
         i_res = index_of(ls, lambda l: l.text == 'self.resources')
         i_kw = index_of(ls, lambda l: l.text == 'kwargs')
